@@ -194,8 +194,12 @@ pub fn run_queries(doc: &Document) -> String {
 /// C12 malformed trees: enumeration terminates and yields only /Type /Page dictionaries
 pub fn run_pagetree(doc: &Document) -> String {
     let mut n = 0usize;
+    let mut ids: Vec<u32> = vec![];
     for id in doc.page_iter() {
         n += 1;
+        if ids.len() < 5000 {
+            ids.push(id.0);
+        }
         let ok = doc.get_dictionary(id).map(|d| d.has_type(b"Page")).unwrap_or(false);
         if !ok {
             return format!("NONPAGE {:?}", id);
@@ -208,7 +212,7 @@ pub fn run_pagetree(doc: &Document) -> String {
     if pages.len() != n || !pages.keys().cloned().eq(1..=(n as u32)) {
         return format!("NUMBERING pages={} iter={}", pages.len(), n);
     }
-    format!("pages={}", n)
+    format!("pages={} ids={}", n, ids.iter().map(|i| i.to_string()).collect::<Vec<_>>().join(","))
 }
 
 /// the worker's dispatch function
